@@ -19,6 +19,7 @@ type c05Chunk struct {
 	Last    bool   `json:"last,omitempty"`
 	Marker  bool   `json:"marker,omitempty"` // a VRFY marker command follows the chunk
 	Lower   bool   `json:"lower,omitempty"`  // spell the command in lower case
+	Zeros   int    `json:"zeros,omitempty"`  // leading zeros in front of the size (chunk-size = 1*DIGIT)
 }
 
 type c05Case struct {
@@ -26,7 +27,11 @@ type c05Case struct {
 	// State: "valid", "nomail", "norcpt" (every RCPT rejected), "badlast"
 	// (last chunk carries a bad LAST token), "overlimit" (cumulative size
 	// exceeds MaxMessageBytes at some chunk)
-	State   string `json:"state"`
+	// "earlyerr": the backend reads ErrAfter octets and returns an error; the
+	// replies to the BDAT commands are then not predicted, only framing is
+	// judged (one reply per command, markers answered, bait never executed)
+	State    string `json:"state"`
+	ErrAfter int    `json:"err_after,omitempty"`
 	Limit   int64  `json:"limit,omitempty"`
 	MaxLine int    `json:"max_line"`
 	Mode    int    `json:"mode"` // 0 SMTP, 1 LMTP plain, 2 LMTP per-recipient
@@ -112,7 +117,7 @@ func c05Build(c c05Case) c05Plan {
 		if ch.Lower {
 			verb = "bdat"
 		}
-		line := fmt.Sprintf("%s %d", verb, len(ch.Payload))
+		line := fmt.Sprintf("%s %s%d", verb, strings.Repeat("0", ch.Zeros), len(ch.Payload))
 		isLast := ch.Last
 		badLast := c.State == "badlast" && i == len(c.Chunks)-1
 		if badLast {
@@ -201,6 +206,16 @@ func c05Run(c c05Case) Verdict {
 	}
 	script := harness.Script{LMTPSession: c.Mode == 2, GateStart: c.GateStart,
 		DefaultData: &harness.DataPlan{Read: harness.ReadPlan{Sizes: c.Reads, Limit: -1}, Honest: true}}
+	earlyErr := c.State == "earlyerr"
+	if earlyErr {
+		early := harness.DataPlan{Read: harness.ReadPlan{Sizes: c.Reads, Limit: c.ErrAfter},
+			Result: harness.Decision{Kind: "smtp", Code: 451, Enh: [3]int{4, 3, 0}, Msg: "backend gave up early"}}
+		if len(c.Prior) > 0 {
+			script.Data = []harness.DataPlan{*script.DefaultData, early}
+		} else {
+			script.Data = []harness.DataPlan{early}
+		}
+	}
 	if c.State == "norcpt" {
 		for i := 0; i < c.NRcpt; i++ {
 			script.Rcpt = append(script.Rcpt, harness.Decision{Kind: "smtp", Code: 550, Enh: [3]int{5, 1, 1}, Msg: "no such user"})
@@ -343,6 +358,52 @@ func c05Run(c c05Case) Verdict {
 	if err != nil {
 		return failf("reply-syntax", "replies do not parse: %v (%s)", err, q(rest))
 	}
+	if earlyErr {
+		// which BDAT command meets the failure depends on where the backend
+		// stopped; framing is what is judged: every marker answered, the
+		// closing commands answered in order, nothing else executed
+		v.NonTrivial = true
+		markers, n252 := 0, 0
+		for _, ch := range c.Chunks {
+			if ch.Marker {
+				markers++
+			}
+		}
+		for _, rp := range rs {
+			if rp.Code == 252 {
+				n252++
+			}
+		}
+		// chunks after the LAST one are not sent (c05Build stops there)
+		sent := 0
+		for _, e := range p.body.exp {
+			if e.Code == 252 {
+				sent++
+			}
+		}
+		if n252 != sent {
+			return failf("marker-count", "backend failed after %d octets: %d of %d marker commands were answered; replies %v; stream %s", c.ErrAfter, n252, sent, codes(rs), q(p.body.buf))
+		}
+		if len(rs) < 3 || rs[len(rs)-3].Code != 250 || rs[len(rs)-2].Code != 250 || rs[len(rs)-1].Code != 221 {
+			return failf("closing-commands", "backend failed after %d octets: RSET, MAIL, QUIT behind the transfer answered %v; stream %s", c.ErrAfter, codes(rs), q(p.body.buf))
+		}
+		if c.Mode == 0 && len(rs) != len(p.body.exp) {
+			return failf("reply-count", "backend failed after %d octets: %d replies to %d commands: %v", c.ErrAfter, len(rs), len(p.body.exp), codes(rs))
+		}
+		mails := 0
+		for _, e := range evs {
+			if e.CB == "Mail" && e.Begin && e.From == "after@x" {
+				mails++
+			}
+		}
+		if mails != 1 {
+			return failf("closing-commands", "MAIL behind the transfer reached the backend %d times", mails)
+		}
+		if pn := r.Log.Panicked(); pn != "" {
+			return failf("panic", "server logged a panic: %s", pn)
+		}
+		return v
+	}
 	if m := matchReplies(rs, p.body.exp); m != "" {
 		return failf("replies", "%s; stream %s", m, q(p.body.buf))
 	}
@@ -406,7 +467,7 @@ func c05GenPayload(t *rapid.T, maxLine int, label string) []byte {
 
 func c05Gen(t *rapid.T) c05Case {
 	c := c05Case{}
-	c.State = rapid.SampledFrom([]string{"valid", "valid", "valid", "nomail", "norcpt", "badlast", "overlimit"}).Draw(t, "state")
+	c.State = rapid.SampledFrom([]string{"valid", "valid", "valid", "nomail", "norcpt", "badlast", "overlimit", "earlyerr"}).Draw(t, "state")
 	c.MaxLine = rapid.SampledFrom([]int{32, 64, 2000}).Draw(t, "maxline")
 	if thorough() && c.MaxLine == 2000 && rapid.IntRange(0, 3).Draw(t, "deflim") == 0 {
 		c.MaxLine = 0
@@ -420,6 +481,9 @@ func c05Gen(t *rapid.T) c05Case {
 	}
 	for i := 0; i < n; i++ {
 		ch := c05Chunk{Payload: c05GenPayload(t, ml, fmt.Sprintf("p%d", i)), Marker: rapid.Bool().Draw(t, "marker"), Lower: rapid.IntRange(0, 5).Draw(t, "lower") == 0}
+		if rapid.IntRange(0, 5).Draw(t, "zeros") == 0 {
+			ch.Zeros = rapid.IntRange(1, 3).Draw(t, "nzeros")
+		}
 		if c.State == "nomail" || c.State == "norcpt" || c.State == "overlimit" {
 			if rapid.Bool().Draw(t, "baitpayload") {
 				ch.Payload = c05BaitPayload(len(ch.Payload) + rapid.IntRange(0, 30).Draw(t, "extra"))
@@ -429,6 +493,19 @@ func c05Gen(t *rapid.T) c05Case {
 		c.Chunks = append(c.Chunks, ch)
 	}
 	switch c.State {
+	case "earlyerr":
+		c.Chunks[n-1].Last = true
+		for i := 0; i < n-1; i++ {
+			c.Chunks[i].Last = false
+		}
+		total := 0
+		for _, ch := range c.Chunks {
+			total += len(ch.Payload)
+		}
+		c.ErrAfter = rapid.IntRange(0, max(0, total-1)).Draw(t, "err_after")
+		if rapid.Bool().Draw(t, "err_at_once") {
+			c.ErrAfter = rapid.IntRange(0, 3).Draw(t, "err_after_small")
+		}
 	case "valid", "badlast":
 		c.Chunks[n-1].Last = true
 		for i := 0; i < n-1; i++ {
